@@ -52,9 +52,12 @@ class PartialOrder(TemporalConstraints):
 class TotalOrder(PartialOrder):
     """A purely qualitative set of constraints that define a total order on its elements."""
 
-    def __init__(self, order: List[str]):
+    def __init__(
+        self, order: List[str], precedences: Optional[List[Tuple[str, str]]] = None
+    ):
         self.order = order
-        precedences = [(order[i - 1], order[i]) for i in range(1, len(order))]
+        if precedences is None:
+            precedences = [(order[i - 1], order[i]) for i in range(1, len(order))]
         super().__init__(precedences)
 
     def __repr__(self):
@@ -97,7 +100,8 @@ def ordering(
     else:
         to = _build_total_order(set(task_ids), precedences)
         if to is not None:
-            return TotalOrder(to)
+            # keep the precedences of the network: partial_order() reports them as given
+            return TotalOrder(to, precedences)
         else:
             return PartialOrder(precedences)
 
